@@ -2,7 +2,7 @@
 import os, re, json, subprocess, time
 import ws, core, mir, mirbmc
 
-PAT = ("gc_collect", "insert_binding", "make_box", "handle_set", "::collection", "::allocate", "value_collection", "::mark", "enter_safepoint", "safepoint_or_interrupt", "park_thread_while_paused", "stop_threads", "resume_threads",
+PAT = ("spawn_native_thread", "gc_collect", "insert_binding", "make_box", "handle_set", "::collection", "::allocate", "value_collection", "::mark", "enter_safepoint", "safepoint_or_interrupt", "park_thread_while_paused", "stop_threads", "resume_threads",
        "enumerate_stacks", "call_per_ctx", "with_locked_env", "::suspend", "::pause_for_safepoint", "::resume", "::interrupt", "mark_and_sweep_new", "closed.rs")
 
 ASSUME = [
@@ -30,7 +30,7 @@ def dump_mir(tag="mir"):
     if p.returncode != 0 or os.path.getsize(out) < 1000000:
         raise mirbmc.ExtractionError("MIR dump failed: " + open(os.path.join(root, "mir.err")).read()[-1500:])
     txt = open(out).read()
-    funcs = mir.parse(txt, lambda n: any(p in n for p in PAT) and ("vm.rs" in n or "closed.rs" in n or "engine.rs" in n))
+    funcs = mir.parse(txt, lambda n: any(p in n for p in PAT) and ("vm.rs" in n or "closed.rs" in n or "engine.rs" in n or "threads.rs" in n or "impl at" not in n))
     return funcs, time.time() - t0, wsdir
 
 
@@ -185,12 +185,33 @@ def block_interrupt_overwrite(s, progs, n):
     return "(assert (and true %s))" % "\n ".join(cs)
 
 
-BLOCKS = {"exit-window": block_exit_window, "two-stoppers": block_two_stoppers, "interrupt-overwrite": block_interrupt_overwrite}
+def block_interrupt_mid(s, progs, n):
+    """Listed finding 'interrupt() is two stores': the target reads its controller between the
+    host's `paused := true` and `state := Interrupted`.  Excluded pattern: the target takes a step
+    that reads its own controller while a host is in the middle of interrupt()."""
+    cs = []
+    hosts = [t for t in range(len(progs)) if progs[t].role == "host"]
+    for k in range(s.K):
+        for (t, node, g, eff, nxt, lbl) in s.table:
+            if progs[t].role != "script" or node.k not in ("paused_load", "state_load") or node.a.get("w") != "self":
+                continue
+            for h in hosts:
+                if t not in {op[1] for op in progs[h].ops}:
+                    continue
+                mid = "(and (not (= pc%d_%d %s)) (not (= pc%d_%d %s)))" % (
+                    h, k, mirbmc.bv(progs[h].entry.id, mirbmc.PCW), h, k, mirbmc.bv(progs[h].done.id, mirbmc.PCW))
+                cs.append("(not (and (= sched_%d %s) (= pc%d_%d %s) %s))" % (
+                    k, mirbmc.bv(t, mirbmc.LKW), t, k, mirbmc.bv(node.id, mirbmc.PCW), mid))
+    return "(assert (and true %s))" % "\n ".join(cs)
+
+
+BLOCKS = {"interrupt-mid": block_interrupt_mid, "exit-window": block_exit_window, "two-stoppers": block_two_stoppers, "interrupt-overwrite": block_interrupt_overwrite}
 
 KF = {
     "exit-window": "sync:safepoint-exit-window",
     "two-stoppers": "sync:two-concurrent-world-stoppers",
     "interrupt-overwrite": "sync:interrupt-overwritten-by-stop-resume",
+    "interrupt-mid": "sync:interrupt-is-two-stores",
 }
 
 
@@ -259,7 +280,7 @@ def project_exit_window(tr):
 
 
 # --------------------------------------------------------------------------- the checks
-def _scenario(funcs, name, spec, K, qname, qargs, block, hostdone, timeout):
+def _scenario(funcs, name, spec, K, qname, qargs, block, hostdone, timeout, finding=None):
     b, progs, n, s = base(funcs, spec, K, hostdone)
     q = {"safety": q_safety, "lasso": q_lasso, "interrupt": q_interrupt}[qname]
     extra = q(s, progs, n, *qargs)
@@ -270,14 +291,14 @@ def _scenario(funcs, name, spec, K, qname, qargs, block, hostdone, timeout):
     nvars = len(s.all_vars()) * (K + 1)
     return {"name": name, "res": res, "dt": dt, "trace": tr, "vals": vals if res != "sat" else {k: v for k, v in vals.items() if k == "J"},
             "K": K, "threads": len(progs), "states": nvars, "transitions": s.n_trans * K, "assumptions": sorted(b.assumptions),
-            "encoded": sorted(b.encoded), "smt_bytes": len(text), "block": block, "spec": spec, "smt": text}
+            "encoded": sorted(b.encoded), "smt_bytes": len(text), "block": block, "spec": spec, "smt": text, "finding": finding}
 
 
 def run_scenarios(funcs, scen, timeout, workers=6):
     from concurrent.futures import ThreadPoolExecutor
     out = {}
     with ThreadPoolExecutor(max_workers=workers) as ex:
-        futs = {name: ex.submit(_scenario, funcs, name, *args, timeout) for name, args in scen.items()}
+        futs = {name: ex.submit(_scenario, funcs, name, *args[:6], timeout, args[6] if len(args) > 6 else None) for name, args in scen.items()}
         for name, f in futs.items():
             try:
                 out[name] = f.result()
@@ -301,7 +322,6 @@ def check(pid, tier, seed, plan):
     scen = plan["scenarios"][tier]
     results = run_scenarios(funcs, scen, timeout)
     native = NativeSync(wsdir)
-    fkey = KF[plan["finding"]]
     encoded, assum = set(), set()
     states = trans = replayed = 0
     for name, r in results.items():
@@ -314,6 +334,7 @@ def check(pid, tier, seed, plan):
         states += r["states"]
         trans += r["transitions"]
         blocked = bool(r["block"])
+        fkey = KF[r.get("finding") or plan["finding"]]
         if r["res"] == "unsat":
             run.ob(name, "pass", nonvacuous=True, note="unsat: no schedule of <= %d steps, %d threads%s" % (r["K"], r["threads"], " (listed finding's pattern excluded)" if blocked else ""), **common)
             continue
